@@ -686,6 +686,12 @@ pub(crate) fn openat2<Fd: AsFd, P: AsRef<Path>>(
     // RESOLVE_IN_ROOT handles that correctly in a race-free way.
     let mut how = how.clone();
     how.flags |= libc::O_CLOEXEC as u64;
+    // As with openat(), O_NOCTTY ensures that a terminal opened by us never
+    // becomes the controlling terminal of the process. openat2(2) refuses
+    // O_NOCTTY in combination with O_PATH (which cannot acquire one anyway).
+    if how.flags & libc::O_PATH as u64 == 0 {
+        how.flags |= libc::O_NOCTTY as u64;
+    }
 
     // A path with an interior NUL byte cannot be passed to the kernel (it
     // would silently be cut short at the NUL). Like rustix does for every
